@@ -25,16 +25,19 @@ type Env struct {
 	st       *State
 	old      *State
 	binds    map[string]TVal
+	params   map[string]TVal
 	pkg      *types.Package
 	useCells bool
 	fr       *Frame
 	errs     []string
 	ground   bool // stays true while no quantifier/fold was used
+	goal     bool // translating a formula to be proved (else: to be assumed)
+	neg      bool // under an odd number of negations
 	depth    int
 }
 
 func (ex *Exec) newEnv(st, old *State, pkg *types.Package, fr *Frame) *Env {
-	return &Env{ex: ex, st: st, old: old, binds: map[string]TVal{}, pkg: pkg, fr: fr, ground: true}
+	return &Env{ex: ex, st: st, old: old, binds: map[string]TVal{}, params: map[string]TVal{}, pkg: pkg, fr: fr, ground: true}
 }
 
 func (e *Env) errf(format string, a ...any) TVal {
@@ -196,7 +199,7 @@ func (e *Env) ident(name string) TVal {
 		return v
 	}
 	if e.useCells {
-		if c := e.st.cellByName(name); c != nil {
+		if c := e.st.cellByName(name, e.frameID()); c != nil {
 			v := e.ex.load(e.st, &Ptr{Kind: PCell, Cell: c, Typ: c.typ})
 			if v.K == VTerm {
 				return TVal{T: v.T, Ty: c.typ}
@@ -206,6 +209,9 @@ func (e *Env) ident(name string) TVal {
 			}
 			return e.errf("local %s is not a term value", name)
 		}
+	}
+	if v, ok := e.params[name]; ok {
+		return v
 	}
 	if v, ok := e.ghostVal(name, e.st); ok {
 		return v
@@ -281,10 +287,13 @@ func (e *Env) tr(x Expr) TVal {
 	case ENil:
 		return TVal{T: Term{"nil", "Nil"}}
 	case EUnary:
-		v := e.tr(n.X)
 		if n.Op == "!" {
+			e.neg = !e.neg
+			v := e.tr(n.X)
+			e.neg = !e.neg
 			return TVal{T: Term{not(v.T.S), SBool}, Ty: v.Ty}
 		}
+		v := e.tr(n.X)
 		return TVal{T: Term{app("-", v.T.S), v.T.Sort}, Ty: v.Ty}
 	case EBinary:
 		return e.binary(n)
@@ -375,7 +384,7 @@ func (e *Env) field(n EField) TVal {
 		}
 		for i := 0; i < stt.NumFields(); i++ {
 			if stt.Field(i).Name() == n.Name {
-				return TVal{T: Term{app(fieldSel(ss, n.Name), b.T.S), vc.sorts.SortOf(stt.Field(i).Type())}, Ty: stt.Field(i).Type()}
+				return TVal{T: Term{vc.sel(ss, n.Name, b.T.S), vc.sorts.SortOf(stt.Field(i).Type())}, Ty: stt.Field(i).Type()}
 			}
 		}
 		return e.errf("no field %s in %s", n.Name, b.Ty)
@@ -411,7 +420,10 @@ func (e *Env) binary(n EBinary) TVal {
 	case "||":
 		return TVal{T: Term{or(e.Bool(n.X), e.Bool(n.Y)), SBool}}
 	case "==>":
-		return TVal{T: Term{implies(e.Bool(n.X), e.Bool(n.Y)), SBool}}
+		e.neg = !e.neg
+		lhs := e.Bool(n.X)
+		e.neg = !e.neg
+		return TVal{T: Term{implies(lhs, e.Bool(n.Y)), SBool}}
 	case "<==>":
 		return TVal{T: Term{app("=", e.Bool(n.X), e.Bool(n.Y)), SBool}}
 	}
@@ -498,6 +510,33 @@ func (e *Env) quant(n EQuant) TVal {
 		}
 	} else if len(guard) > 0 {
 		body = and(append(guard, body)...)
+	}
+	// explicit instantiation trigger: a universal goal is proved at skolem
+	// constants marked by qt_<sorts>; universal assumptions fire on that mark.
+	var qsorts, qnames []string
+	for _, v := range n.Vars {
+		tv := sub.binds[v.Name]
+		qsorts = append(qsorts, tv.T.Sort)
+		qnames = append(qnames, tv.T.S)
+	}
+	qt := "qt"
+	for _, s := range qsorts {
+		qt += "_" + sanitize(s)
+	}
+	e.ex.vc.declareFun(qt, qsorts, SBool)
+	mark := app(qt, qnames...)
+	using := e.goal == e.neg // assumption in positive position, or goal in negative position
+	if n.Forall && using {
+		plain := fmt.Sprintf("(forall (%s) %s)", strings.Join(decls, " "), body)
+		trig := fmt.Sprintf("(forall (%s) (! %s :pattern (%s)))", strings.Join(decls, " "), body, mark)
+		return TVal{T: Term{and(plain, trig), SBool}}
+	}
+	if n.Forall && !using {
+		return TVal{T: Term{fmt.Sprintf("(forall (%s) (=> %s %s))", strings.Join(decls, " "), mark, body), SBool}}
+	}
+	if !n.Forall && using {
+		// an existential we may use: mark its witness
+		return TVal{T: Term{fmt.Sprintf("(exists (%s) (and %s %s))", strings.Join(decls, " "), mark, body), SBool}}
 	}
 	return TVal{T: Term{fmt.Sprintf("(%s (%s) %s)", q, strings.Join(decls, " "), body), SBool}}
 }
@@ -663,6 +702,30 @@ func (e *Env) call(n ECall) TVal {
 		}
 		c := vc.sorts.AnyCtor(ty)
 		return TVal{T: Term{app(c.sel, x.T.S), c.sort}, Ty: ty}
+	case "deref":
+		if !argc(1) {
+			return TVal{}
+		}
+		a := e.tr(n.Args[0])
+		if a.Ty == nil {
+			return e.errf("deref of a value without Go type")
+		}
+		pt, ok := a.Ty.Underlying().(*types.Pointer)
+		if !ok {
+			return e.errf("deref of non-pointer")
+		}
+		es := vc.sorts.SortOf(pt.Elem())
+		if a.T.Sort == SOptInt {
+			return TVal{T: Term{app("oi_val", a.T.S), SInt}, Ty: pt.Elem()}
+		}
+		if a.T.Sort == SOptRat {
+			return TVal{T: Term{app("or_val", a.T.S), SReal}, Ty: pt.Elem()}
+		}
+		if _, isS := vc.sorts.structs[es]; isS {
+			return TVal{T: vc.readStruct(e.st, a.T, es), Ty: pt.Elem()}
+		}
+		hn, hs := vc.boxHeap(es)
+		return TVal{T: Term{app("select", vc.heapGet(e.st, hn, hs).S, a.T.S), es}, Ty: pt.Elem()}
 	case "closed":
 		if !argc(1) {
 			return TVal{}
@@ -709,6 +772,8 @@ func (e *Env) call(n ECall) TVal {
 		rs := SInt
 		if fd.Result == "bool" {
 			rs = SBool
+		} else if fd.Result == "real" {
+			rs = SReal
 		}
 		return TVal{T: Term{app("fold_"+fd.Name, as...), rs}}
 	}
@@ -766,7 +831,6 @@ func (e *Env) foldInst(fd *FoldDecl) *foldInst {
 	}
 	fi := &foldInst{fd: fd}
 	vc.folds[fd.Name] = fi
-	vc.foldOrder = append(vc.foldOrder, fd.Name)
 	sub := *e
 	sub.pkg = fd.pkg
 	if len(fd.Params) == 0 {
@@ -791,6 +855,7 @@ func (e *Env) foldInst(fd *FoldDecl) *foldInst {
 		}
 	}
 	fi.build(e)
+	vc.foldOrder = append(vc.foldOrder, fd.Name)
 	return fi
 }
 
@@ -802,6 +867,8 @@ func (fi *foldInst) build(e *Env) {
 	rs := SInt
 	if fd.Result == "bool" {
 		rs = SBool
+	} else if fd.Result == "real" {
+		rs = SReal
 	}
 	// extra parameter list
 	var pdecl, pnames, psorts []string
@@ -845,6 +912,9 @@ func (fi *foldInst) build(e *Env) {
 	switch fd.Kind {
 	case "sum":
 		unit = "0"
+		if rs == SReal {
+			unit = "0.0"
+		}
 		comb = func(a, b string) string { return app("+", a, b) }
 	case "count":
 		unit = "0"
@@ -863,6 +933,11 @@ func (fi *foldInst) build(e *Env) {
 		app(F, args(app("sq_snoc_"+S, "s", "e"))), comb(app(F, args("s")), elem("e")), app(F, args(app("sq_snoc_"+S, "s", "e"))))
 	fmt.Fprintf(&b, "(assert (forall (%s) (! (= %s %s) :pattern (%s))))\n", all(fmt.Sprintf("(s %s) (t %s)", S, S)),
 		app(F, args(app("sq_concat_"+S, "s", "t"))), comb(app(F, args("s")), app(F, args("t"))), app(F, args(app("sq_concat_"+S, "s", "t"))))
+	// split at k: fold(s) = fold(s[:k]) (+) fold(s[k:])   (inductive consequence)
+	fmt.Fprintf(&b, "(assert (forall (%s) (! (=> (and (<= 0 k) (<= k hi) (= hi (sq_len_%s s))) (= %s %s)) :pattern (%s %s))))\n",
+		all(fmt.Sprintf("(s %s) (k Int) (hi Int)", S)), S,
+		app(F, args("s")), comb(app(F, args(app("sq_sub_"+S, "s", "0", "k"))), app(F, args(app("sq_sub_"+S, "s", "k", "hi")))),
+		app(F, args(app("sq_sub_"+S, "s", "k", "hi"))), app(F, args("s")))
 	// reverse
 	fmt.Fprintf(&b, "(assert (forall (%s) (! (= %s %s) :pattern (%s))))\n", all(fmt.Sprintf("(s %s)", S)),
 		app(F, args(app("sq_rev_"+S, "s"))), app(F, args("s")), app(F, args(app("sq_rev_"+S, "s"))))
@@ -873,6 +948,12 @@ func (fi *foldInst) build(e *Env) {
 			all(fmt.Sprintf("(s %s) (i Int) (e %s)", S, E)), S,
 			app(F, args(app("sq_update_"+S, "s", "i", "e"))), app(F, args("s")), elem(app("sq_at_"+S, "s", "i")), elem("e"),
 			app(F, args(app("sq_update_"+S, "s", "i", "e"))))
+		mulN := "n"
+		if rs == SReal {
+			mulN = "(to_real n)"
+		}
+		fmt.Fprintf(&b, "(assert (forall (%s) (! (=> (>= n 0) (= %s (* %s %s))) :pattern (%s))))\n", all("(n Int)"),
+			app(F, args(app("sq_zeros_"+S, "n"))), mulN, elem(vc.sorts.Zero(E).S), app(F, args(app("sq_zeros_"+S, "n"))))
 		if fd.Kind == "count" {
 			fmt.Fprintf(&b, "(assert (forall (%s) (! (>= %s 0) :pattern (%s))))\n", all(fmt.Sprintf("(s %s)", S)), app(F, args("s")), app(F, args("s")))
 		}
@@ -893,4 +974,11 @@ func (fi *foldInst) build(e *Env) {
 			all(fmt.Sprintf("(s %s)", S)), w, w, S, elem(app("sq_at_"+S, "s", w)), app(F, args("s")), app(F, args("s")))
 	}
 	fi.axiomText = b.String()
+}
+
+func (e *Env) frameID() int {
+	if e.fr != nil {
+		return e.fr.id
+	}
+	return 0
 }
